@@ -82,12 +82,14 @@ func gen(t *rapid.T) Case {
 		c.D = genWKTDef(t)
 		c.WKTOpt = projkit.WKTOpts{ESRI: rapid.Bool().Draw(t, "esri"), Authority: rapid.Bool().Draw(t, "auth"), UnitFirst: rapid.Bool().Draw(t, "unitfirst"), Degree: rapid.SampledFrom(projkit.DegreeSpellings).Draw(t, "degree"),
 			Reverse: rapid.Bool().Draw(t, "reverse"), Axis: rapid.Bool().Draw(t, "axis"),
-			Sep: rapid.SampledFrom([]string{"", "", " ", "\n    "}).Draw(t, "sep")}
+			Sep: rapid.SampledFrom([]string{"", "", " ", "\n    "}).Draw(t, "sep"),
+			// free-text names as files have them: commas inside the quotes, or a single character
+			Names: rapid.SampledFrom([]int{0, 0, 0, 1, 1, 2}).Draw(t, "names")}
 		c.Variant = rapid.IntRange(0, 5).Draw(t, "variant")
 		c.Lon, c.Lat = projkit.GenPosition(t, c.D)
 		c.ViaShp = rapid.IntRange(0, 9).Draw(t, "viashp") == 0
 		// proj4js 2.3.12 does not read TOWGS84 clauses from WKT at all, so it is a third opinion for named datums only
-		if orc, _ := projkit.GetOracle(); orc != nil && c.D.Proj != "longlat" && c.D.DatumKind == "name" {
+		if orc, _ := projkit.GetOracle(); orc != nil && c.D.Proj != "longlat" && c.D.DatumKind == "name" && c.WKTOpt.Names == 0 {
 			res, _, err := orc.Transform("+proj=longlat +datum=WGS84 +no_defs", c.D.WKT(c.WKTOpt, c.Variant), [][2]float64{{c.Lon, c.Lat}})
 			if err == nil {
 				c.HaveJS, c.JS = true, res[0]
